@@ -226,10 +226,14 @@ type c08GroupKey struct {
 	excluded string
 }
 
+// set by TestVerif_C08_Pipeline (which runs first): real runs on code whose set-up already diverged may crash the binary
+var c08PipelineDiverged int
+
 func TestVerif_C08_Pipeline(t *testing.T) {
 	kit.RequireEngine(t)
 	rep := kit.NewReport("C08", "pipeline")
 	defer rep.Write(t)
+	defer func() { c08PipelineDiverged = rep.NDivergences() }()
 	fix := c08Fixtures(t)
 	lc := Connect()
 	cases := kit.LoadCases(t, "cases.ndjson")
@@ -816,8 +820,8 @@ func TestVerif_C08_Sign(t *testing.T) {
 	rnd := kit.Rand(88)
 	seed := big.NewInt(200)
 	for ri, r := range runs {
-		if rep.NDivergences() > 0 {
-			rep.Note("remaining real signing runs skipped after a divergence")
+		if rep.NDivergences() > 0 || c08PipelineDiverged > 0 {
+			rep.Note("real signing runs skipped after a divergence")
 			rep.Eval("", nil)
 			continue
 		}
@@ -889,6 +893,11 @@ func TestVerif_C08_KeygenSign(t *testing.T) {
 	kgBudget := time.Duration(kit.IntEnv("VERIF_KEYGEN_BUDGET_S", 1500)) * time.Second
 	rnd := kit.Rand(89)
 	for ri, r := range runs {
+		if c08PipelineDiverged > 0 {
+			rep.Note("real key generation skipped after a divergence of the pipeline replay")
+			rep.Eval("", nil)
+			continue
+		}
 		n, h, q := r.Get("n").Int(), r.Get("h").Int(), r.Get("quorum").Int()
 		gp := &GroupParameters{GroupSize: n, GroupQuorum: q, HonestThreshold: h}
 		excluded := r.Get("excluded").Ints()
